@@ -225,7 +225,8 @@ fn main() {
         }
     }
     // constructor probes: strings over the quoting alphabet, including quoted-pairs at the end (finding D8)
-    let alphabet: [&str; 14] = ["a", "!", " ", "\t", "\r\n", "\"", "\\", "\\\"", "\\ ", "\\\t", "\u{e9}", "\u{c0}\u{80}", "\\a", "b"];
+    let alphabet: [&str; 19] = ["a", "!", " ", "\t", "\r\n", "\"", "\\", "\\\"", "\\ ", "\\\t", "\u{e9}", "\u{c0}\u{80}", "\\a", "b",
+        "\u{c0}\u{a0}", "\u{c0}\u{85}", "\u{a0}", "\u{2028}", "\u{3000}"];
     let probes = if args.thorough { 20000 } else { 600 };
     let mut nprobe = 0u64;
     for k in 0..probes {
